@@ -162,6 +162,76 @@ def run(ctx, build):
             distinct.add((tuple(mask), R, maxpos))
         if len(out.samples) < 4:
             out.samples.append(desc)
+    # ---- designed (independent of the seed): a LEGACY results group (only the 'last_pixel' attribute) with the same parameters
+    # lies beside the group that is computed -- a partial group chosen with use_partial_computation(), or a fresh one
+    # (override=True).  The ranks must partition the pending set of the group that IS computed, and mark it there.
+    hist['legacy_group_beside'] = 0
+    for (N, M, lp, mmask, R, maxpos, how) in ((16, 2, 10, [1, 1, 0, 0, 1, 0, 1, 1, 0, 0, 0, 1, 0, 0, 0, 1], 3, 2, 'chosen_partial_group'),
+                                               (12, 1, 5, None, 3, 3, 'override'),
+                                               (9, 2, 4, [0, 1, 0, 1, 0, 1, 0, 1, 0], 2, 1, 'chosen_partial_group')):
+        hist['legacy_group_beside'] += 1
+        lay = gen.Layout([N], [0], [M], [0], dtype='f8')
+        with h5py.File(base, 'w') as h5:
+            main = gen.write_layout(h5, lay)
+            modern_name = procutil.seed_partial_group(main, mmask).name if mmask else None
+            legacy_name = procutil.seed_partial_group(main, [1] * lp + [0] * (N - lp), with_status=False, last_pixel=lp).name
+        mask = list(mmask) if mmask else [0] * N
+        pend = [i for i, m in enumerate(mask) if m == 0]
+        desc = {'N': N, 'mask': mask, 'R': R, 'maxpos': maxpos, 'legacy_group_last_pixel': lp, 'computed_group': how}
+        per_rank, what, mode = [], None, None
+        for r in range(R):
+            path = os.path.join(ctx.tmp, 'rank.h5')
+            shutil.copy(base, path)
+            try:
+                with h5py.File(path, 'r+') as h5:
+                    main = h5['Measurement_000/Channel_000/Raw_Data']
+                    with common.quiet():
+                        p = procutil.MapProc(main, cores=1)
+                        p.mpi_rank, p.mpi_size = r, R
+                        if how == 'override':
+                            p._max_pos_per_read = maxpos
+                            grp = p.compute(override=True)
+                        else:
+                            p.use_partial_computation(h5_partial_group=h5[modern_name])
+                            p._max_pos_per_read = maxpos
+                            grp = p.compute()
+                    gname = grp.name
+                    status = [int(x) for x in grp['completed_positions'][()]] if 'completed_positions' in grp else None
+                    results = [float(x) for x in grp['Results'][:, 0]]
+                    batches = p.batches_seen
+            except Exception as e:
+                what, mode = 'rank %d raised %r' % (r, e), 'rank_raises'
+                break
+            finally:
+                if os.path.exists(path):
+                    os.remove(path)
+            hist['rank_runs'] += 1
+            per_rank.append((batches, status, results))
+            if status is not None:
+                cases.append(cpair(clist(mask, cnat), cnat(R), cnat(r), cZ(maxpos), clist(batches, lambda b: clist(b, cnat)), clist(status, cnat)))
+                meta.append(dict(desc, r=r, obs_batches=batches, obs_status=status))
+            mine = [q for bb in batches for q in bb]
+            if (how == 'override' and gname in (legacy_name, modern_name)) or (how != 'override' and gname != modern_name):
+                what, mode = 'rank %d computed in %s' % (r, gname), 'wrong_group_computed'
+            elif status is None:
+                what, mode = 'rank %d: the computed group %s has no completion-status dataset' % (r, gname), 'marks_foreign_positions'
+            elif sorted(i for i in range(N) if status[i] == 1 and mask[i] == 0) != sorted(mine):
+                what, mode = 'rank %d marked %s in the computed group but processed %s' % (r, [i for i in range(N) if status[i] == 1 and mask[i] == 0], mine), 'marks_foreign_positions'
+            elif any(len(bb) > maxpos or len(bb) == 0 for bb in batches):
+                what, mode = 'rank %d batches %s exceed limit %d' % (r, batches, maxpos), 'batch_limit_exceeded'
+            elif any(results[q] != procutil.expected_result(M, q) for q in mine):
+                what, mode = 'rank %d stored a wrong result' % r, 'wrong_result'
+            if what:
+                break
+        if not what:
+            allpos = sorted(q for (b, _, _) in per_rank for bb in b for q in bb)
+            if allpos != pend:
+                mode = 'ranks_overlap' if len(allpos) != len(set(allpos)) else 'ranks_leave_gap'
+                what = 'union of rank ranges %s != pending positions %s of the computed group' % (allpos, pend)
+        if what:
+            out.violations.append({'call_site': 'Process.compute (simulated ranks)', 'input_class': 'legacy_group_beside_' + how,
+                                   'failure_mode': mode, 'what': what, 'case': desc})
+        distinct.add((tuple(mask), R, maxpos, how))
     # ---- sockets through a fake mpi4py
     scases = []
     vocab = ['nodeA', 'nodeB', 'node-10', 'node-2', 'x']
